@@ -711,6 +711,34 @@ func (f *fnTrans) ret(ins *ssa.Return) {
 		f.ghostSet(env, g[0], g[1])
 	}
 	env.st = f.cur
+	if len(f.c.Lemmas) > 0 {
+		lenv := f.env(f.curB, f.cur, nil)
+		inner := lenv.lookup
+		lenv.lookup = func(n string) (TV, bool) {
+			if tv, ok := names[n]; ok && (strings.HasPrefix(n, "result") || isResultName(res, n)) {
+				return tv, true
+			}
+			return inner(n)
+		}
+		for i, cl := range f.c.Lemmas {
+			t, err := lenv.EvalBool(cl.Expr)
+			if err != nil {
+				// a lemma may name locals that are not in scope at every return; it must apply at one at least
+				if f.lemmaErr == nil {
+					f.lemmaErr = map[int]string{}
+				}
+				f.lemmaErr[i] = fmt.Sprintf("%s: lemma %q: %v", cl.Line, cl.Src, err)
+				continue
+			}
+			if f.lemmaOK == nil {
+				f.lemmaOK = map[int]bool{}
+			}
+			f.lemmaOK[i] = true
+			o := f.oblige("lemma", fmt.Sprintf("lemma %s", cl.Src), ins.Pos(), f.propsOf(cl), f.here(), t)
+			o.Name = fmt.Sprintf("%s/lemma%d@ret%d", f.name, i, ord)
+			f.factOb(f.here(), t)
+		}
+	}
 	for i, cl := range f.c.Ensures {
 		t, err := env.EvalBool(cl.Expr)
 		if err != nil {
@@ -790,6 +818,15 @@ func (f *fnTrans) subtypeObligations(ins *ssa.Return, ord int, names map[string]
 			o.Name = fmt.Sprintf("%s/implements:%s/post%d@ret%d", f.name, k, i, ord)
 		}
 	}
+}
+
+func isResultName(res *types.Tuple, n string) bool {
+	for i := 0; i < res.Len(); i++ {
+		if res.At(i).Name() == n {
+			return true
+		}
+	}
+	return false
 }
 
 // frameLocs evaluates the modifies clause of contract c into, per heap
